@@ -178,7 +178,23 @@ impl<T: Model> Model for Vec<T> {
 }
 impl<T: Model> Model for VecDeque<T> {
     fn from_model(v: &MV) -> Self {
-        seq_from::<T>(v).into()
+        // build a WRAPPED ring buffer (both as_slices() parts non-empty when len >= 2): the back half is
+        // pushed at the back, the front half at the front
+        let items: Vec<T> = seq_from(v);
+        let n = items.len();
+        let mut d = VecDeque::with_capacity(n + 1);
+        let mut front = Vec::new();
+        for (i, x) in items.into_iter().enumerate() {
+            if i < n / 2 {
+                front.push(x);
+            } else {
+                d.push_back(x);
+            }
+        }
+        for x in front.into_iter().rev() {
+            d.push_front(x);
+        }
+        d
     }
     fn to_model(&self) -> MV {
         seq_to(self.iter())
